@@ -34,6 +34,8 @@ type Hooks struct {
 	AfterSetup func(r *Run)
 	// OnBlock observes the raw response of every block.
 	OnBlock func(i int, height int64, resp *abci.ResponseFinalizeBlock)
+	// Stop, when set, ends the execution before block index i (a bounded horizon).
+	Stop func(i int) bool
 }
 
 // Run is the state of one execution.
@@ -47,6 +49,8 @@ type Run struct {
 	// Panic holds the value of a panic that escaped FinalizeBlock/Commit.
 	Panic   interface{}
 	PanicAt int64
+	// Stopped is set when Hooks.Stop ended the execution early.
+	Stopped bool
 	// PanicStage is "script" (harness: building the block's txs) or "abci" (FinalizeBlock / Commit).
 	PanicStage string
 }
@@ -106,6 +110,10 @@ func ExecuteWith(h Hooks, tweak func(*world.Config)) (out []BlockDigest, run *Ru
 // blocks executes block indices from..n-1 of the script.
 func (run *Run) blocks(sc *Script, h Hooks, from, n int) (out []BlockDigest) {
 	for i := from; i < n; i++ {
+		if h.Stop != nil && h.Stop(i) {
+			run.Stopped = true
+			break
+		}
 		if h.BeforeBlock != nil {
 			h.BeforeBlock(i, run)
 		}
